@@ -1,6 +1,7 @@
 """C02 — mitigated = baseline emitted − program emitted, leak by leak.
 
-Lean: Props/C02.lean (C02_calendar_days, C02_partial, C02_totals, C02_counterexample).
+Lean: Props/C02.lean (C02_calendar_days, C02_partial, C02_totals, C02_totals_weighted, C02_counterexample),
+Props/C03.lean (C02_totals_all: all leaks of a program, non-repairables via C03_nonrepairable).
 Tie: real emission classes driven through the real Component/Source vs drv_emission, on the
 structured-exhaustive + random case set; the end date handed to calc_mitigated is read from
 ldar_sim.py's call site.  Oracle: the three clauses of the property evaluated on the implementation's
@@ -10,7 +11,7 @@ from harness import core
 from harness.props import _emission_common as EC
 
 MANIFEST_ENTRY = {
-    "text": "Lean theorems C02_calendar_days / C02_partial / C02_totals prove the leak-wise identity emitted + mitigated = baseline emitted, mitigated >= 0 and != 0 only after a program repair, for every start, duration, delay, tag schedule and horizon (induction over days on an invariant of the emission state machine); C02_counterexample proves the full statement false for intermittent sources (known finding F4). The model is tied to the real RepairableEmission/IntermittentRepairableEmission/Component/Source classes by differential correspondence on a structured-exhaustive + random case set on every run, and the property's clauses are evaluated directly on the implementation's program and no-LDAR summaries.",
+    "text": "Lean theorems C02_calendar_days / C02_partial prove the leak-wise identity emitted + mitigated = baseline emitted, mitigated >= 0 and != 0 only after a program repair, for every start, duration, delay, tag schedule and horizon (induction over days on an invariant of the emission state machine); program totals: C02_totals (day counts), C02_totals_weighted (rate-weighted volumes, each leak with its own rate) and C02_totals_all (Props/C03.lean: all leaks of a program, non-repairable ones via C03_nonrepairable); C02_counterexample proves the full statement false for intermittent sources (known finding F4: mitigation counts calendar days) and C02_counterexample_final_day exhibits the second mechanism (F4c: the day an intermittent emission ends is never counted as emitting). The model is tied to the real RepairableEmission/IntermittentRepairableEmission/Component/Source classes by differential correspondence on a structured-exhaustive (persistent and intermittent kinds, one/two tags, reporting delays {0,2}, reachable starts only) + random case set on every run, and the property's clauses are evaluated directly on the implementation's program and no-LDAR summaries; for intermittent leaks the emitted days of both runs are recomputed from the on/off pattern alone and the known-finding signatures are emitted only when the discrepancy is exactly the non-emitting mitigated days plus/minus the uncounted final days - anything else is a violation (C02:identity:intermittent:other).",
     "design_ref": "DESIGN.md 5.2, 4.1",
     "note": "trusted: Lean kernel + propext/Classical.choice/Quot.sound; the hand-written model (tied by sampled correspondence, not proof); harness adapters; volumes compared as integer day counts (rate 1.0, x86.4 exact division checked); float rates, CSV formatting and the summary aggregation (C14) outside this check",
     "technique": "Lean 4 invariant proof over the emission state machine + differential correspondence with the real classes + direct oracle",
@@ -18,6 +19,72 @@ MANIFEST_ENTRY = {
 
 MODULE = "LdarModel.Props.C02"
 FILE = "LdarModel/Props/C02.lean"
+
+
+F4_SIG = "C02:identity:intermittent-source"
+F4C_SIG = "C02:identity:intermittent:final-day-not-counted"
+
+
+def intermittent_identity(ctx, ad, idur, prog, base, inp, where):
+    """oracle for an intermittent repairable leak.  `prog` / `base` carry activeDays, emitDays, mitDays,
+    status of the program run and of the no-LDAR run.
+
+    The emitted days of both runs are recomputed from the on/off pattern alone (closed form of
+    IntermittencyMixin.update incl. its quirk that the update which ends an emission neither counts as
+    an emitting day nor advances the pattern).  With A_p / A_b the days active, the discrepancy
+    D = emitted + mitigated - baseline emitted must then be exactly
+        (# mitigated calendar days A_p+1..A_b that are non-emitting days of the pattern)      -> F4
+      + [baseline ended and its final day is an emitting day of the pattern]                   -> F4c
+      - [program run ended and its final day is an emitting day of the pattern]                -> F4c
+    (enumerated day by day, not derived from the two counts).  Only then is the failure attributed to
+    the known mechanisms; anything else is `C02:identity:intermittent:other`."""
+    ended_p = prog["status"] in ("repaired", "expired")
+    ended_b = base["status"] in ("repaired", "expired")
+    exp_p = EC.expected_emit_days(True, ad, idur, prog["activeDays"], prog["status"])
+    exp_b = EC.expected_emit_days(True, ad, idur, base["activeDays"], base["status"])
+    inp = dict(inp, pattern={"on": ad, "off": idur, "expected_emitted_program": exp_p, "expected_emitted_baseline": exp_b})
+    ctx.count(where + "intermittent_pattern_oracle_evaluated")
+    if prog["emitDays"] != exp_p or base["emitDays"] != exp_b:
+        ctx.violate("C02:identity:intermittent:other",
+                    "intermittent leak: emitted days differ from the on/off pattern of the source "
+                    "(program %s vs %s expected, baseline %s vs %s expected)"
+                    % (prog["emitDays"], exp_p, base["emitDays"], exp_b), inp)
+        return
+    cal_ok = prog["activeDays"] + prog["mitDays"] == base["activeDays"]
+    vol_ok = prog["emitDays"] + prog["mitDays"] == base["emitDays"]
+    if vol_ok:
+        return  # the property holds for this leak (no calendar-day requirement is part of it)
+    if not cal_ok:
+        # the known mechanisms leave the calendar-day identity intact (C02_calendar_days)
+        ctx.violate("C02:identity:intermittent:calendar-days",
+                    "intermittent leak: emitted + mitigated != baseline emitted and days active + days "
+                    "mitigated != baseline days active", inp)
+        return
+    a_p, a_b = prog["activeDays"], base["activeDays"]
+    d = prog["emitDays"] + prog["mitDays"] - base["emitDays"]
+    nonemit = sum(1 for i in range(a_p + 1, a_b + 1) if not EC.pattern_on(i, ad, idur))
+    q_b = 1 if ended_b and a_b >= 1 and EC.pattern_on(a_b, ad, idur) else 0
+    q_p = 1 if ended_p and a_p >= 1 and EC.pattern_on(a_p, ad, idur) else 0
+    inp = dict(inp, discrepancy={"D": d, "non_emitting_mitigated_days": nonemit,
+                                 "baseline_final_day_uncounted": q_b, "program_final_day_uncounted": q_p})
+    if d != nonemit + q_b - q_p or (nonemit == 0 and q_b == q_p):
+        ctx.violate("C02:identity:intermittent:other",
+                    "intermittent leak: emitted + mitigated - baseline emitted = %d is not explained by the "
+                    "non-emitting mitigated days (%d) and the uncounted final days (+%d -%d)" % (d, nonemit, q_b, q_p), inp)
+        return
+    if nonemit > 0:
+        ctx.violate(F4_SIG,
+                    "intermittent repairable source: emitted + mitigated != baseline emitted "
+                    "(mitigation counts calendar days, emission counts emitting days)", inp)
+        ctx.count(where + "F4:non-emitting-mitigated-days")
+    if q_b != q_p:
+        ctx.violate(F4C_SIG,
+                    "intermittent repairable source: the day on which an emission ends is never counted as an "
+                    "emitting day (persistent emissions count it), so emitted + mitigated is off by one day "
+                    "against the baseline whenever only one of the two runs has ended on an emitting day", inp)
+        ctx.count(where + "F4c:final-day-not-counted")
+    if d < 0:
+        ctx.count(where + "F4/F4c:discrepancy<0")
 
 
 def oracle_case(ctx, case, res, base):
@@ -30,16 +97,9 @@ def oracle_case(ctx, case, res, base):
     if res["mitDays"] != 0 and not (res["status"] == "repaired" and res["by"].startswith("c")):
         ctx.violate("C02:mitigation-without-program-repair",
                     "non-zero mitigation for a leak not ended by a program repair", inp)
-    cal_ok = res["activeDays"] + res["mitDays"] == base["activeDays"]
     vol_ok = res["emitDays"] + res["mitDays"] == base["emitDays"]
     if inter:
-        if not cal_ok:
-            ctx.violate("C02:identity:intermittent:calendar-days",
-                        "intermittent leak: days active + days mitigated != baseline days active", inp)
-        elif not vol_ok:
-            ctx.violate("C02:identity:intermittent-source",
-                        "intermittent repairable source: emitted + mitigated != baseline emitted "
-                        "(mitigation counts calendar days, emission counts emitting days)", inp)
+        intermittent_identity(ctx, ad, idur, res, base, inp, "")
     elif not vol_ok:
         if start + nrd >= n:
             sub = "natural-end-on-or-after-last-day"
@@ -63,24 +123,34 @@ def wholerun_record(ctx, res, rec):
         return
     if rec["mitDays"] < 0:
         ctx.violate("C02:negative-mitigation", "mitigated volume is negative", inp)
-    if rec["mitDays"] != 0 and not (rec["status"] == "repaired" and rec["by"] not in ("natural", "", "None")):
+    program_repair = rec["status"] == "repaired" and rec["by"] not in ("natural", "", "None")
+    if rec["mitDays"] != 0 and not program_repair:
         ctx.violate("C02:mitigation-without-program-repair", "non-zero mitigation without program repair", inp)
-    cal_ok = rec["activeDays"] + rec["mitDays"] == base["activeDays"]
     vol_ok = rec["emitDays"] + rec["mitDays"] == base["emitDays"]
     if rec["intermittent"]:
-        if not cal_ok:
-            ctx.violate("C02:identity:intermittent:calendar-days", "intermittent leak: calendar-day identity fails", inp)
-        elif not vol_ok:
-            ctx.violate("C02:identity:intermittent-source",
-                        "intermittent repairable source: emitted + mitigated != baseline emitted", inp)
+        intermittent_identity(ctx, rec["adur"], rec["idur"],
+                              {k: rec[k] for k in ("status", "activeDays", "emitDays", "mitDays")}, base, inp, "wholerun_")
     elif not vol_ok:
         ctx.violate("C02:identity:persistent:whole-run", "persistent leak: emitted + mitigated != baseline emitted", inp)
     ctx.count("wholerun_oracle_evaluated")
+    ctx.count("wholerun_oracle:%s" % ("intermittent" if rec["intermittent"] else "persistent"))
+    if rec["prog"] != res.cfg["baseline"]:
+        if program_repair:
+            ctx.count("wholerun_records_with_program_repair")
+        if rec["mitDays"] > 0:
+            ctx.count("wholerun_records_with_mit>0")
+        if rec["start"] < 0:
+            ctx.count("wholerun_records_pre-period")
+        if rec["start"] + rec["nrd"] >= res.ndays:
+            ctx.count("wholerun_records_natural-end>=last-day")
 
 
 def wholerun_totals(ctx, res, recs):
     """program totals: the Emissions Summary rows must carry the sums of the program's own records, and
-    (persistent repairable sources) total mitigated = baseline emitted - program emitted over repairable leaks"""
+    total mitigated = baseline emitted - program emitted, rate-weighted (C02_totals_weighted), summed over
+    the *persistent repairable* records of the program; with the non-repairable records added
+    (C02_totals_all) the identity Σ rate·emitted + Σ rate·mitigated = Σ rate·baseline emitted must hold too.
+    Intermittent repairable records are left out of the sums (F4), the program is not skipped."""
     rows = res.summary("Emissions Summary") or []
     for row in rows:
         prog, sim = row["Program Name"], int(row["Simulation"])
@@ -92,21 +162,34 @@ def wholerun_totals(ctx, res, recs):
             ctx.violate("C02:totals:summary-mitigated", "summary total mitigated != sum over the program's records", inp)
         if abs(float(row['Total "True" Emissions (Kg Methane)']) - tot_em) > 1e-6 * max(1.0, tot_em):
             ctx.violate("C02:totals:summary-emitted", "summary total emitted != sum over the program's records", inp)
-        if not any(r["intermittent"] for r in mine):
-            rep = [r for r in mine if r["repairable"] and r["base"] is not None]
-            lhs = sum(r["mitDays"] * r["rate"] for r in rep)
-            rhs = sum((EC.base_fields(r)["emitDays"] - r["emitDays"]) * r["rate"] for r in rep)
-            if lhs != rhs:
-                ctx.violate("C02:totals:mitigated!=baseline-program", "program total mitigated != baseline emitted - program emitted", inp)
+        usable = [r for r in mine if r["base"] is not None and not r["ambiguous_twin"]
+                  and r["emitDays"] is not None and r["mitDays"] is not None]
+        rep = [r for r in usable if r["repairable"] and not r["intermittent"]]
+        lhs = sum(r["mitDays"] * r["rate"] for r in rep)
+        rhs = sum((EC.base_fields(r)["emitDays"] - r["emitDays"]) * r["rate"] for r in rep)
+        if lhs != rhs:
+            ctx.violate("C02:totals:mitigated!=baseline-program",
+                        "program total mitigated != baseline emitted - program emitted (persistent repairable records)", inp)
+        every = rep + [r for r in usable if not r["repairable"]]
+        lhs = sum((r["emitDays"] + r["mitDays"]) * r["rate"] for r in every)
+        rhs = sum(EC.base_fields(r)["emitDays"] * r["rate"] for r in every)
+        if lhs != rhs:
+            ctx.violate("C02:totals:all-leaks",
+                        "program total emitted + mitigated != baseline emitted (persistent repairable + non-repairable records)", inp)
         ctx.count("wholerun_totals_checked")
+        ctx.count("wholerun_totals_records_summed", len(every))
+        ctx.count("wholerun_totals_records_left_out(intermittent repairable)",
+                  sum(1 for r in mine if r["repairable"] and r["intermittent"]))
 
 
 def run(ctx):
-    ctx.rule = ("cases = (start, nrd, delay, kind, N, tag events); structured-exhaustive core over "
-                "N<=8,start in -7..N,nrd<=6,delay<=3,one tag on any day (subsampled by seed in quick) + "
-                "random small (<=3 tags, all 8 kinds) + random large; non-trivial = emission becomes "
-                "active; distinct by (kind, pre-period, start=-nrd, end status, ender, multi-tag, nrd, "
-                "delay, N, active days)")
+    ctx.rule = ("cases = (start, nrd, delay, kind, N, tag events); structured-exhaustive core (only starts the "
+                "generator can produce, start >= -nrd): A persistent kinds, N<=8, nrd<=6, delay<=3, one tag on any day, "
+                "reporting delay {0,2}; B intermittent kinds on/off in {1,2}^2, same grid; C two tags (N<=6, nrd<=4, "
+                "reporting delays {0,2}x{0,2}); U a small separately counted sample of start < -nrd (never generated); "
+                "subsampled by seed in quick, complete in thorough; + random small (<=3 tags, all 8 kinds) + random large; "
+                "non-trivial = emission becomes active; distinct by (kind, pre-period, start=-nrd, end status, ender, "
+                "multi-tag, nrd, delay, N, active days)")
     core.lean_stage(ctx, MODULE, FILE, drivers=["drv_emission"])
     cases = EC.build_cases(ctx)
     results = EC.correspond(ctx, cases)
@@ -123,6 +206,13 @@ def run(ctx):
         ctx.sample({"case": list(c), "impl": il.split(" | ")[0]})
     EC.shared_component_stage(ctx, lambda ctx, case, res, base, w: oracle_case(ctx, case, res, base))
     EC.wholerun_stage(ctx, 2, 12, wholerun_record, per_result=wholerun_totals)
+    EC.finish_hit_rates(ctx)
+    for k in ("wholerun_records_with_program_repair", "wholerun_records_with_mit>0"):
+        ctx.counts.setdefault(k, 0)
+        if ctx.counts[k] == 0:
+            ctx.note("whole runs of this seed: %s = 0 - the whole-run oracle evaluations of this run say nothing "
+                     "about mitigation (unit and shared-component stages do)" % k)
+    ctx.extra["wholerun_evidence"] = {k: v for k, v in sorted(ctx.counts.items()) if k.startswith("wholerun_")}
     ctx.assumptions.append("volumes are day counts x rate x 86.4; rates on the exact grid (rate 1.0)")
 
 
